@@ -1,33 +1,20 @@
-(* Proofs/SchedSafe.v — warm_context_safe: when the index is current and the threads'
-   requests are ns-closed, every interleaving gives every call its solo result. *)
+(* Proofs/SchedSafe.v — context_safe: when the threads' requests are ns-closed, every
+   interleaving gives every call its solo result, on a cold context as well as on a
+   warm one (since build_xsi_cache publishes a complete index with one store). *)
 From Coq Require Import NArith PeanoNat List Bool Lia.
 From XV Require Import Base.Str Base.Eqb Model.Context Model.Sched
   Proofs.ContextEq Proofs.ContextInv Proofs.ContextHist.
 Import ListNotations.
 Open Scope N_scope.
 
-Section Safe.
-Variable w : world.
-Variable canon : cid -> option meta.
-Variable st0 : sstate.                    (* the warm state the threads start from *)
-
-Hypothesis Hseen : s_seen st0 = w_modules w.
-Hypothesis Hindex : index_of st0 = ideal_index w.
-Hypothesis Hshort : index_short w = true.
-
-(* the state invariant: the cache holds canonical metadata of existing classes; the index
-   part is the one of st0 (nobody writes it) *)
-Record sinv (st : sstate) : Prop := mkSinv {
-  si_cache : forall c m, cache_get (s_cache st) c = Some m -> canon c = Some m;
-  si_known : forall c m, cache_get (s_cache st) c = Some m ->
-               exists cd, find_class w c = Some cd /\ c_ok cd = true;
-  si_xsi : s_xsi st = s_xsi st0;
-  si_heap : s_heap st = s_heap st0;
-  si_seen : s_seen st = s_seen st0 }.
-
-(* thread-local knowledge that stays true: these classes are cached *)
-Definition known (K : list cid) (st : sstate) : Prop :=
-  forall c, In c K -> cache_get (s_cache st) c <> None.
+Lemma index_eqb_eq a b : index_eqb a b = true <-> a = b.
+Proof.
+  unfold index_eqb. apply (list_eqb_spec (fun x y : str * list cid =>
+    str_eqb (fst x) (fst y) && lcid_eqb (snd x) (snd y))).
+  intros [q1 l1] [q2 l2]. cbn. rewrite andb_true_iff, str_eqb_eq, lcid_eqb_eq. split.
+  - intros [-> ->]. reflexivity.
+  - intros H. inversion H. auto.
+Qed.
 
 Lemma cache_get_set l c m c' :
   cache_get (cache_set l c m) c' = if N.eqb c c' then Some m else cache_get l c'.
@@ -40,197 +27,188 @@ Proof.
       destruct (N.eqb_spec c c') as [->|_]; [congruence|reflexivity].
 Qed.
 
-(* no action ever removes a cache entry *)
-Lemma do_act_keeps st a c :
-  cache_get (s_cache st) c <> None -> cache_get (s_cache (fst (do_act w st a))) c <> None.
+Lemma cache_get_in l c m : cache_get l c = Some m -> In (c, m) l.
 Proof.
-  intros H. destruct a; cbn; try exact H.
-  - rewrite cache_get_set. destruct (N.eqb c0 c); [discriminate|exact H].
-  - destruct (xsi_get (s_xsi st) q); cbn; exact H.
-  - destruct (xsi_get (s_xsi st) q); cbn; exact H.
-  - destruct (xsi_get (s_xsi st) q); cbn; exact H.
+  induction l as [|[k v] l IH]; cbn; [discriminate|].
+  destruct (N.eqb_spec k c) as [->|_]; intros H; [inversion H; left; reflexivity|right; auto].
 Qed.
 
-Lemma known_step K st a : known K st -> known K (fst (do_act w st a)).
-Proof. intros H c Hin. exact (do_act_keeps st a c (H c Hin)). Qed.
+Section Safe.
+Variable w : world.
+Variable canon : cid -> option meta.
+Variable st0 : sstate.                    (* the state the threads start from *)
+
+(* the index every lookup answers from *)
+Definition E : list (str * list cid) := eff_index w st0.
+
+(* the state invariant: the cache holds canonical metadata of existing classes; the
+   index is E whenever it counts as current; a context that counted as current at the
+   start keeps doing so *)
+Record sinv (st : sstate) : Prop := mkSinv {
+  si_cache : forall c m, cache_get (s_cache st) c = Some m -> canon c = Some m;
+  si_known : forall c m, cache_get (s_cache st) c = Some m ->
+               exists cd, find_class w c = Some cd /\ c_ok cd = true;
+  si_seen_ix : s_seen st = w_modules w -> s_xsi st = E;
+  si_seen0 : s_seen st0 = w_modules w -> s_seen st = w_modules w }.
+
+(* thread-local knowledge that stays true: these classes are cached; the index is E *)
+Record kn := mkK { k_cached : list cid; k_ix : bool }.
+Definition known (K : kn) (st : sstate) : Prop :=
+  (forall c, In c (k_cached K) -> cache_get (s_cache st) c <> None)
+  /\ (k_ix K = true -> s_xsi st = E).
+
+(* what every action of an ok program preserves *)
+Definition mono (st st1 : sstate) : Prop :=
+  (forall c, cache_get (s_cache st) c <> None -> cache_get (s_cache st1) c <> None)
+  /\ (s_xsi st = E -> s_xsi st1 = E).
+
+Lemma known_mono K st st1 : mono st st1 -> known K st -> known K st1.
+Proof. intros [M1 M2] [H1 H2]. split; [intros c Hc; apply M1; apply H1; exact Hc|intros Hi; apply M2; apply H2; exact Hi]. Qed.
+
+Lemma mono_refl st : mono st st.
+Proof. split; auto. Qed.
 
 (* what a thread learns from an action *)
-Definition gained (st : sstate) (a : act) : list cid :=
+Definition gained (K : kn) (st : sstate) (a : act) : kn :=
   match a with
-  | ACacheHas c => match cache_get (s_cache st) c with Some _ => [c] | None => [] end
-  | ACacheSet c _ => [c]
-  | _ => []
+  | ACacheHas c => match cache_get (s_cache st) c with
+                   | Some _ => mkK (c :: k_cached K) (k_ix K)
+                   | None => K
+                   end
+  | ACacheSet c _ => mkK (c :: k_cached K) (k_ix K)
+  | ASeenRead => if N.eqb (s_seen st) (w_modules w) then mkK (k_cached K) true else K
+  | AXsiPublish ix => if index_eqb ix E then mkK (k_cached K) true else K
+  | _ => K
   end.
 
-Lemma known_gained K st a : known K st -> known (gained st a ++ K) (fst (do_act w st a)).
+Lemma known_gained K st a :
+  sinv st -> known K st -> mono st (fst (do_act w st a)) -> known (gained K st a) (fst (do_act w st a)).
 Proof.
-  intros H c Hin. apply in_app_or in Hin as [Hin|Hin]; [|exact (known_step K st a H c Hin)].
-  destruct a; cbn in Hin; try contradiction.
-  - destruct (cache_get (s_cache st) c0) eqn:G; [|contradiction]. destruct Hin as [<-|[]]. cbn. congruence.
-  - destruct Hin as [<-|[]]. cbn. rewrite cache_get_set, N.eqb_refl. discriminate.
+  intros I Hk M. pose proof (known_mono K _ _ M Hk) as [H1 H2].
+  destruct a; cbn [gained]; try (split; assumption).
+  - destruct (cache_get (s_cache st) c) eqn:G; [|split; assumption]. split; [|exact H2].
+    intros c' [<-|Hc]; [cbn; congruence|apply H1; exact Hc].
+  - split; [|exact H2]. intros c' [<-|Hc]; [cbn; rewrite cache_get_set, N.eqb_refl; discriminate|apply H1; exact Hc].
+  - destruct (N.eqb_spec (s_seen st) (w_modules w)) as [Es|_]; [|split; assumption].
+    split; [exact H1|]. intros _. cbn. apply (si_seen_ix _ I). exact Es.
+  - destruct (index_eqb ix E) eqn:Ei; [|split; assumption]. apply index_eqb_eq in Ei.
+    split; [exact H1|]. intros _. cbn. exact Ei.
 Qed.
 
-(* "from every state that satisfies the invariant and in which the classes K are
-   cached, the program keeps the invariant and ends with r" *)
-Inductive ok : list cid -> mscript -> res -> Prop :=
+(* "from every state that satisfies the invariant and in which K holds, the program
+   keeps the invariant and ends with r" *)
+Inductive ok : kn -> mscript -> res -> Prop :=
 | ok_ret K r : ok K (MRet r) r
 | ok_act K a k r :
-    (forall st, sinv st -> known K st -> sinv (fst (do_act w st a))) ->
-    (forall st, sinv st -> known K st -> ok (gained st a ++ K) (k (snd (do_act w st a))) r) ->
+    (forall st, sinv st -> known K st -> sinv (fst (do_act w st a)) /\ mono st (fst (do_act w st a))) ->
+    (forall st, sinv st -> known K st -> ok (gained K st a) (k (snd (do_act w st a))) r) ->
     ok K (MAct a k) r.
 
-Lemma ok_act' K a k r :
-  (forall st, sinv st -> known K st ->
-     sinv (fst (do_act w st a)) /\ ok (gained st a ++ K) (k (snd (do_act w st a))) r) ->
+Lemma ok_read K a k r :
+  (forall st, fst (do_act w st a) = st) ->
+  (forall st, sinv st -> known K st -> ok (gained K st a) (k (snd (do_act w st a))) r) ->
   ok K (MAct a k) r.
-Proof. intros H. constructor; intros st I Hk; apply (H st I Hk). Qed.
+Proof.
+  intros Hs Hk. constructor; [|exact Hk]. intros st I _. rewrite Hs. split; [exact I|apply mono_refl].
+Qed.
 
 (* ---- the methods ---- *)
 Definition canonical (c : cid) (pns : ostr) : Prop :=
   forall m, ideal_build w c pns = Some m -> canon c = Some m.
 
+(* continuations are stated for every knowledge that keeps "the index is E" *)
+Definition keeps (K K' : kn) : Prop := k_ix K = true -> k_ix K' = true.
+
 Lemma ok_get K c k r m :
-  In c K -> canon c = Some m -> (forall K', ok K' (k (Some m)) r) -> ok K (m_get c k) r.
+  In c (k_cached K) -> canon c = Some m ->
+  (forall K', keeps K K' -> ok K' (k (Some m)) r) -> ok K (m_get c k) r.
 Proof.
-  intros Hin Hc Hk. unfold m_get. apply ok_act'. intros st I Hkn. cbn. split; [exact I|].
+  intros Hin Hc Hk. unfold m_get. apply ok_read; [reflexivity|]. intros st I [Hk1 Hk2]. cbn.
   destruct (cache_get (s_cache st) c) as [m'|] eqn:G.
-  - pose proof (si_cache _ I _ _ G) as E. rewrite Hc in E. inversion E; subst. apply Hk.
-  - exfalso. apply (Hkn c Hin). exact G.
+  - pose proof (si_cache _ I _ _ G) as Em. rewrite Hc in Em. inversion Em; subst. apply Hk. unfold keeps. auto.
+  - exfalso. apply (Hk1 c Hin). exact G.
 Qed.
 
 Lemma ok_build K c pns k r :
-  canonical c pns -> (forall K', ok K' (k (ideal_build w c pns)) r) -> ok K (m_build w c pns k) r.
+  canonical c pns -> (forall K', keeps K K' -> ok K' (k (ideal_build w c pns)) r) -> ok K (m_build w c pns k) r.
 Proof.
-  intros Hcan Hk. unfold m_build. apply ok_act'. intros st I Hkn. cbn [do_act fst snd]. split; [exact I|].
-  destruct (cache_get (s_cache st) c) as [m|] eqn:G; cbn [gained]; rewrite G.
+  intros Hcan Hk. unfold m_build. apply ok_read; [reflexivity|]. intros st I Hkn. cbn [do_act fst snd gained].
+  destruct (cache_get (s_cache st) c) as [m|] eqn:G.
   - destruct (si_known _ I _ _ G) as [cd [Hf Hok]].
     assert (Hi : ideal_build w c pns = Some (build_meta cd pns)) by (unfold ideal_build; rewrite Hf, Hok; reflexivity).
     pose proof (si_cache _ I _ _ G) as Hm. rewrite (Hcan _ Hi) in Hm. inversion Hm; subst m.
-    apply ok_get with (m := build_meta cd pns); [left; reflexivity|auto|].
-    intros K'. rewrite <- Hi. apply Hk.
+    apply ok_get with (m := build_meta cd pns); [left; reflexivity|apply Hcan; exact Hi|].
+    intros K' HK'. rewrite <- Hi. apply Hk. exact HK'.
   - destruct (ideal_build w c pns) as [m|] eqn:Hi.
-    + apply ok_act'. intros st1 I1 Hkn1. cbn [do_act fst snd gained]. split.
-      * destruct (ideal_build_some _ _ _ _ Hi) as [cd [Hf [Hok _]]].
-        constructor; cbn; try apply I1.
-        -- intros c' m'. rewrite cache_get_set. destruct (N.eqb_spec c c') as [<-|_].
-           ++ intros E; inversion E; subst. apply Hcan. exact Hi.
-           ++ apply I1.
-        -- intros c' m'. rewrite cache_get_set. destruct (N.eqb_spec c c') as [<-|_]; [eauto|apply I1].
-      * apply ok_get with (m := m); [left; reflexivity|apply Hcan; exact Hi|]. intros K'. apply Hk.
-    + apply ok_act'. intros st1 I1 Hkn1. cbn. split; [exact I1|apply Hk].
+    + constructor.
+      * intros st1 I1 Hkn1. cbn [do_act fst]. split.
+        -- destruct (ideal_build_some _ _ _ _ Hi) as [cd [Hf [Hok _]]].
+           constructor; cbn; try apply I1.
+           ++ intros c' m'. rewrite cache_get_set. destruct (N.eqb_spec c c') as [<-|_].
+              ** intros Em; inversion Em; subst. apply Hcan. exact Hi.
+              ** apply I1.
+           ++ intros c' m'. rewrite cache_get_set. destruct (N.eqb_spec c c') as [<-|_]; [eauto|apply I1].
+        -- split; [|auto]. intros c' Hc'. cbn. rewrite cache_get_set. destruct (N.eqb c c'); [discriminate|exact Hc'].
+      * intros st1 I1 Hkn1. cbn [do_act snd gained].
+        apply ok_get with (m := m); [left; reflexivity|apply Hcan; exact Hi|]. intros K' HK'. apply Hk. exact HK'.
+    + apply ok_read; [reflexivity|]. intros st1 I1 Hkn1. cbn. apply Hk. unfold keeps. auto.
 Qed.
 
-Lemma ok_build_xsi K k r : (forall K', ok K' k r) -> ok K (m_build_xsi w k) r.
+Lemma ok_build_xsi K k r :
+  (forall K', k_ix K' = true -> ok K' k r) -> ok K (m_build_xsi w k) r.
 Proof.
-  intros Hk. unfold m_build_xsi. apply ok_act'. intros st I Hkn. cbn. split; [exact I|].
-  rewrite (si_seen _ I), Hseen, N.eqb_refl. apply Hk.
+  intros Hk. unfold m_build_xsi. apply ok_read; [reflexivity|]. intros st I Hkn. cbn [do_act fst snd gained].
+  rewrite (N.eqb_sym (w_modules w) (s_seen st)).
+  destruct (N.eqb_spec (s_seen st) (w_modules w)) as [Es|Ens]; [apply Hk; reflexivity|].
+  (* a rebuild: the context did not count as current at the start either, so E is the ideal index *)
+  assert (HE : E = ideal_index w).
+  { unfold E, eff_index. destruct (N.eqb_spec (s_seen st0) (w_modules w)) as [E0|_]; [|reflexivity].
+    exfalso. apply Ens. apply (si_seen0 _ I). exact E0. }
+  constructor.
+  - intros st1 I1 Hkn1. cbn [do_act fst]. split.
+    + constructor; cbn; try apply I1. intros _. symmetry. exact HE.
+    + split; [auto|]. intros _. cbn. symmetry. exact HE.
+  - intros st1 I1 Hkn1. cbn [do_act snd gained].
+    assert (Hi : index_eqb (ideal_index w) E = true) by (apply index_eqb_eq; symmetry; exact HE). rewrite Hi.
+    constructor.
+    + intros st2 I2 [_ Hk2]. cbn [do_act fst]. split.
+      * constructor; cbn; try apply I2; intros _; try reflexivity. apply Hk2. reflexivity.
+      * split; auto.
+    + intros st2 I2 Hkn2. cbn [do_act snd gained]. apply Hk. reflexivity.
 Qed.
-
-(* the lists of the frozen index *)
-Lemma index_get_of xsi heap q :
-  index_get (map (fun e => (fst e, heap_get heap (Some (snd e)))) xsi) q
-  = option_map (fun l => heap_get heap (Some l)) (xsi_get xsi q).
-Proof.
-  induction xsi as [|[k l] xsi IH]; cbn; [reflexivity|]. destruct (str_eqb k q); [reflexivity|exact IH].
-Qed.
-
-Lemma frozen_lookup st q : sinv st -> is_datatype_qname q = false ->
-  heap_get (s_heap st) (xsi_get (s_xsi st) q) = ideal_lookup w q.
-Proof.
-  intros I Hd. unfold ideal_lookup. rewrite Hd, <- Hindex. unfold index_of.
-  rewrite index_get_of, (si_xsi _ I), (si_heap _ I). destruct (xsi_get (s_xsi st0) q); reflexivity.
-Qed.
-
-Definition lref_ok (q : str) (ol : option loc) : Prop := heap_get (s_heap st0) ol = ideal_lookup w q.
 
 Lemma ok_find_types K q k r :
-  (forall K' ol, lref_ok q ol -> ok K' (k ol) r) -> ok K (m_find_types w q k) r.
+  (forall K', ok K' (k (ref_lookup E q)) r) -> ok K (m_find_types w q k) r.
 Proof.
-  intros Hk. unfold m_find_types. destruct (is_datatype_qname q) eqn:Hd.
-  - apply Hk. unfold lref_ok, ideal_lookup. rewrite Hd. reflexivity.
-  - apply ok_build_xsi. intros K1. apply ok_act'. intros st I Hkn. cbn [do_act fst snd gained app]. split; [exact I|].
-    pose proof (frozen_lookup st q I Hd) as Hl.
-    destruct (xsi_get (s_xsi st) q) as [l|] eqn:G.
-    + apply ok_act'. intros st1 I1 Hkn1. pose proof (frozen_lookup st1 q I1 Hd) as Hl1.
-      assert (G1 : xsi_get (s_xsi st1) q = Some l) by (rewrite (si_xsi _ I1), <- (si_xsi _ I); exact G).
-      cbn [do_act]. rewrite G1. cbn. split; [exact I1|]. apply Hk. unfold lref_ok.
-      rewrite <- (si_heap _ I1). rewrite G1 in Hl1. exact Hl1.
-    + apply Hk. unfold lref_ok. cbn in Hl. cbn. exact Hl.
-Qed.
-
-Lemma ok_find_types_all K q k r :
-  (forall K', ok K' (k (ideal_lookup w q)) r) -> ok K (m_find_types_all w q k) r.
-Proof.
-  intros Hk. unfold m_find_types_all. destruct (is_datatype_qname q) eqn:Hd.
-  - replace [] with (ideal_lookup w q); [apply Hk|]. unfold ideal_lookup. rewrite Hd. reflexivity.
-  - apply ok_build_xsi. intros K1. apply ok_act'. intros st I Hkn. cbn [do_act fst snd gained app]. split; [exact I|].
-    pose proof (frozen_lookup st q I Hd) as Hl.
-    destruct (xsi_get (s_xsi st) q) as [l|] eqn:G.
-    + apply ok_act'. intros st1 I1 Hkn1. pose proof (frozen_lookup st1 q I1 Hd) as Hl1.
-      assert (G1 : xsi_get (s_xsi st1) q = Some l) by (rewrite (si_xsi _ I1), <- (si_xsi _ I); exact G).
-      cbn [do_act]. rewrite G1. cbn [fst snd gained app]. split; [exact I1|]. rewrite G1 in Hl1.
-      specialize (Hk K1). rewrite <- Hl1 in Hk. exact Hk.
-    + cbn in Hl. specialize (Hk (gained st (AXsiHas q) ++ K1)). rewrite <- Hl in Hk. exact Hk.
+  intros Hk. unfold m_find_types, ref_lookup in *. destruct (is_datatype_qname q); [apply Hk|].
+  apply ok_build_xsi. intros K1 Hix. apply ok_read; [reflexivity|]. intros st I [_ Hx]. cbn [do_act fst snd gained].
+  rewrite (Hx Hix). destruct (index_get E q) as [l|] eqn:G; [|apply Hk].
+  constructor.
+  - intros st1 I1 [_ Hx1]. cbn [do_act]. rewrite (Hx1 Hix), G. cbn. split; [exact I1|apply mono_refl].
+  - intros st1 I1 [_ Hx1]. cbn [do_act gained]. rewrite (Hx1 Hix), G. cbn. apply Hk.
 Qed.
 
 Lemma ok_find_type K q k r :
-  (forall K', ok K' (k (last (map Some (ideal_lookup w q)) None)) r) -> ok K (m_find_type w q k) r.
-Proof.
-  intros Hk. unfold m_find_type. apply ok_find_types. intros K1 ol Hol. apply ok_act'. intros st I Hkn.
-  cbn. split; [exact I|]. rewrite (si_heap _ I), Hol. apply Hk.
-Qed.
-
-Lemma find_skipn {A} (p : A -> bool) l i a :
-  nth_error l i = Some a -> find p (skipn i l) = if p a then Some a else find p (skipn (S i) l).
-Proof. intros H. rewrite (nth_error_skipn _ _ _ H). reflexivity. Qed.
-
-Lemma ok_sub_loop fuel : forall K c ol i k r l,
-  heap_get (s_heap st0) ol = l -> (List.length l < i + fuel)%nat -> (i <= List.length l)%nat ->
-  (forall K', ok K' (k (find (subclass_candidate w c) (skipn i l))) r) ->
-  ok K (m_sub_loop fuel w c ol i k) r.
-Proof.
-  induction fuel as [|f IH]; intros K c ol i k r l Hl Hlen Hi Hk; [lia|].
-  cbn [m_sub_loop]. apply ok_act'. intros st I Hkn. cbn. split; [exact I|].
-  rewrite (si_heap _ I), Hl. destruct (nth_error l i) as [tp|] eqn:En.
-  - rewrite (find_skipn _ _ _ _ En) in Hk. destruct (subclass_candidate w c tp); [apply Hk|].
-    assert (i < List.length l)%nat by (apply nth_error_Some; congruence).
-    apply IH with (l := l); auto; lia.
-  - rewrite (nth_error_none_skipn _ _ En) in Hk. apply Hk.
-Qed.
-
-Lemma ideal_lookup_short q : (List.length (ideal_lookup w q) < sub_fuel w)%nat.
-Proof.
-  unfold ideal_lookup. destruct (is_datatype_qname q); [cbn; unfold sub_fuel; lia|].
-  destruct (index_get (ideal_index w) q) as [l|] eqn:G; [|cbn; unfold sub_fuel; lia].
-  unfold index_short in Hshort. rewrite forallb_forall in Hshort.
-  assert (Hin : In (q, l) (ideal_index w)).
-  { clear - G. induction (ideal_index w) as [|[k v] ix IH]; cbn in G; [discriminate|].
-    destruct (str_eqb_spec k q) as [->|_]; [inversion G; left; reflexivity|right; auto]. }
-  specialize (Hshort _ Hin). cbn [snd] in Hshort. apply Nat.ltb_lt in Hshort. exact Hshort.
-Qed.
+  (forall K', ok K' (k (last (map Some (ref_lookup E q)) None)) r) -> ok K (m_find_type w q k) r.
+Proof. intros Hk. unfold m_find_type. apply ok_find_types. exact Hk. Qed.
 
 Lemma ok_find_subclass K c q k r :
-  (forall K', ok K' (k (find (subclass_candidate w c) (ideal_lookup w q))) r) ->
-  ok K (m_find_subclass w c q k) r.
-Proof.
-  intros Hk. unfold m_find_subclass. apply ok_find_types. intros K1 ol Hol.
-  apply ok_sub_loop with (l := ideal_lookup w q); [exact Hol| |lia|exact Hk].
-  pose proof (ideal_lookup_short q). lia.
-Qed.
+  (forall K', ok K' (k (find (subclass_candidate w c) (ref_lookup E q))) r) -> ok K (m_find_subclass w c q k) r.
+Proof. intros Hk. unfold m_find_subclass. apply ok_find_types. exact Hk. Qed.
 
 Lemma ok_fetch K c pns xt k r :
   canonical c pns ->
   (forall m q s, ideal_build w c pns = Some m -> truthy xt = Some q -> ostr_eqb (m_tq m) (Some q) = false ->
-                 find (subclass_candidate w c) (ideal_lookup w q) = Some s -> canonical s pns) ->
-  (forall K', ok K' (k (ideal_fetch w c pns xt)) r) -> ok K (m_fetch w c pns xt k) r.
+                 find (subclass_candidate w c) (ref_lookup E q) = Some s -> canonical s pns) ->
+  (forall K', ok K' (k (ref_fetch w E c pns xt)) r) -> ok K (m_fetch w c pns xt k) r.
 Proof.
-  intros Hc Hs Hk. unfold m_fetch. apply ok_build; [exact Hc|]. intros K1. unfold ideal_fetch in Hk.
+  intros Hc Hs Hk. unfold m_fetch. apply ok_build; [exact Hc|]. intros K1 _. unfold ref_fetch in Hk.
   destruct (ideal_build w c pns) as [m|] eqn:Hb; [|apply Hk].
   destruct (truthy xt) as [q|] eqn:Ht; [|apply Hk].
   destruct (ostr_eqb (m_tq m) (Some q)) eqn:Eq; [apply Hk|].
   apply ok_find_subclass. intros K2.
-  destruct (find (subclass_candidate w c) (ideal_lookup w q)) as [s|] eqn:Ef; [|apply Hk].
-  apply ok_build; [eapply Hs; eauto|]. intros K3. apply Hk.
+  destruct (find (subclass_candidate w c) (ref_lookup E q)) as [s|] eqn:Ef; [|apply Hk].
+  apply ok_build; [eapply Hs; eauto|]. intros K3 _. apply Hk.
 Qed.
 
 (* ---- whole thread programs ---- *)
@@ -238,7 +216,7 @@ Fixpoint reqs_ok (s : script) : Prop :=
   match s with
   | Ret _ => True
   | Call c k => supported c = true ->
-                (forall e, In e (call_reqs w c) -> canon (fst e) = Some (snd e)) /\ reqs_ok (k (ideal_call w c))
+                (forall e, In e (call_reqs w E c) -> canon (fst e) = Some (snd e)) /\ reqs_ok (k (ref_call w E c))
   end.
 
 Lemma one_in c p m :
@@ -246,32 +224,32 @@ Lemma one_in c p m :
   In (c, m) (match ideal_build w c p with Some m => [(c, m)] | None => [] end).
 Proof. intros ->. left. reflexivity. Qed.
 
-Lemma ok_expand s : forall K, reqs_ok s -> ok K (expand w s) (ideal_run_c w s).
+Lemma ok_expand s : forall K, reqs_ok s -> ok K (expand w s) (ref_run w E s).
 Proof.
-  induction s as [r|c k IH]; intros K Hr; cbn [expand ideal_run_c].
+  induction s as [r|c k IH]; intros K Hr; cbn [expand ref_run].
   - constructor.
   - cbn [reqs_ok] in Hr.
     destruct c as [c pns|c pns xt|q|q|c q|names|names c|c pns| | |p u];
-      cbn [expand ideal_run_c supported] in *;
+      cbn [expand ref_run supported ref_call] in *;
       try (constructor; fail); destruct (Hr eq_refl) as [Hreq Hrest]; clear Hr.
     + apply ok_build.
       * intros m Hm. apply (Hreq (c, m)). cbn [call_reqs]. apply one_in. exact Hm.
-      * intros K'. apply IH. exact Hrest.
+      * intros K' _. apply IH. exact Hrest.
     + apply ok_fetch.
       * intros m Hm. apply (Hreq (c, m)). cbn [call_reqs]. apply in_or_app. left. apply one_in. exact Hm.
       * intros m q s Hb Ht Eq Ef m' Hm'. apply (Hreq (s, m')). cbn [call_reqs]. apply in_or_app. right.
         rewrite Hb, Ht, Eq, Ef. apply one_in. exact Hm'.
       * intros K'. apply IH. exact Hrest.
     + apply ok_find_type. intros K'. apply IH. exact Hrest.
-    + apply ok_find_types_all. intros K'. apply IH. exact Hrest.
+    + apply ok_find_types. intros K'. apply IH. exact Hrest.
     + apply ok_find_subclass. intros K'. apply IH. exact Hrest.
     + apply IH. exact Hrest.
 Qed.
 
 Lemma reqs_ok_of s :
-  (forall e, In e (ideal_reqs w s) -> canon (fst e) = Some (snd e)) -> reqs_ok s.
+  (forall e, In e (ref_reqs w E s) -> canon (fst e) = Some (snd e)) -> reqs_ok s.
 Proof.
-  induction s as [r|c k IH]; intros H; cbn [reqs_ok]; [exact I|]. intros Hs. cbn [ideal_reqs] in H. rewrite Hs in H.
+  induction s as [r|c k IH]; intros H; cbn [reqs_ok]; [exact I|]. intros Hs. cbn [ref_reqs] in H. rewrite Hs in H.
   split.
   - intros e Hin. apply H. apply in_or_app. left. exact Hin.
   - apply IH. intros e Hin. apply H. apply in_or_app. right. exact Hin.
@@ -280,15 +258,16 @@ Qed.
 (* ---- all threads together ---- *)
 Definition tok (st : sstate) (m : mscript) (r : res) : Prop := exists K, known K st /\ ok K m r.
 
-Lemma tok_other st a m r : tok st m r -> tok (fst (do_act w st a)) m r.
-Proof. intros [K [Hk Ho]]. exists K. split; [apply known_step; exact Hk|exact Ho]. Qed.
+Lemma tok_mono st st1 m r : mono st st1 -> tok st m r -> tok st1 m r.
+Proof. intros M [K [Hk Ho]]. exists K. split; [eapply known_mono; eauto|exact Ho]. Qed.
 
 Lemma tok_step st a k r :
   sinv st -> tok st (MAct a k) r ->
-  sinv (fst (do_act w st a)) /\ tok (fst (do_act w st a)) (k (snd (do_act w st a))) r.
+  sinv (fst (do_act w st a)) /\ mono st (fst (do_act w st a))
+  /\ tok (fst (do_act w st a)) (k (snd (do_act w st a))) r.
 Proof.
-  intros I [K [Hk Ho]]. inversion Ho; subst. split; [apply H2; assumption|].
-  exists (gained st a ++ K). split; [apply known_gained; exact Hk|apply H4; assumption].
+  intros I [K [Hk Ho]]. inversion Ho; subst. destruct (H2 st I Hk) as [I1 M]. split; [exact I1|]. split; [exact M|].
+  exists (gained K st a). split; [apply known_gained; assumption|apply H4; assumption].
 Qed.
 
 Lemma forall2_set_nth {A B} (P : A -> B -> Prop) l rs i a r :
@@ -313,11 +292,10 @@ Lemma sched_step_inv st ts log rs i :
 Proof.
   intros I F. unfold sched_step. destruct (nth_error ts i) as [[r|a k]|] eqn:En; try (split; assumption).
   destruct (forall2_nth _ _ _ _ _ F En) as [r [Hr Ht]].
-  destruct (tok_step _ _ _ _ I Ht) as [I1 Ht1].
+  destruct (tok_step _ _ _ _ I Ht) as [I1 [M Ht1]].
   destruct (do_act w st a) as [st1 ans] eqn:Ed. cbn [fst snd] in *. split; [exact I1|].
   apply forall2_set_nth with (r := r); [|exact Hr|exact Ht1].
-  clear - F Ed. induction F as [|m r0 l rs Hm F IH]; constructor; [|exact IH].
-  replace st1 with (fst (do_act w st a)) by (rewrite Ed; reflexivity). apply tok_other. exact Hm.
+  clear - F M. induction F as [|m r0 l rs Hm F IH]; constructor; [|exact IH]. eapply tok_mono; eauto.
 Qed.
 
 Lemma interleave_inv sched : forall st ts log rs,
@@ -335,13 +313,11 @@ Lemma solo_ok K m r : ok K m r -> forall st, sinv st -> known K st ->
 Proof.
   induction 1 as [K r|K a k r Hi H IH]; intros st I Hk; cbn [solo].
   - cbn. auto.
-  - pose proof (Hi st I Hk) as I1. specialize (IH st I Hk).
+  - destruct (Hi st I Hk) as [I1 M]. specialize (IH st I Hk).
+    pose proof (known_gained K st a I Hk M) as Hk1.
     destruct (do_act w st a) as [st1 ans] eqn:Ed. cbn [fst snd] in *.
-    assert (Hk1 : known (gained st a ++ K) st1).
-    { replace st1 with (fst (do_act w st a)) by (rewrite Ed; reflexivity). apply known_gained. exact Hk. }
     destruct (IH st1 I1 Hk1) as [Hr [I2 Ht]]. split; [exact Hr|]. split; [exact I2|].
-    intros m2 r2 Hm2. apply Ht. replace st1 with (fst (do_act w st a)) by (rewrite Ed; reflexivity).
-    apply tok_other. exact Hm2.
+    intros m2 r2 Hm2. apply Ht. eapply tok_mono; eauto.
 Qed.
 
 Lemma drain_ok ts : forall st rs,
@@ -355,15 +331,15 @@ Proof.
   specialize (IH st1 l' I1 F1). destruct (drain w st1 ts) as [st2 rs2]. cbn in *. subst. reflexivity.
 Qed.
 
-Theorem conc_run_ideal progs sched :
+Theorem conc_run_ref progs sched :
   sinv st0 -> (forall s, In s progs -> reqs_ok s) ->
-  conc_run w st0 progs sched = map (ideal_run_c w) progs
-  /\ map (solo_run w st0) progs = map (ideal_run_c w) progs.
+  conc_run w st0 progs sched = map (ref_run w E) progs
+  /\ map (solo_run w st0) progs = map (ref_run w E) progs.
 Proof.
   intros I Hr.
-  assert (F : Forall2 (tok st0) (map (expand w) progs) (map (ideal_run_c w) progs)).
+  assert (F : Forall2 (tok st0) (map (expand w) progs) (map (ref_run w E) progs)).
   { induction progs as [|s progs IH]; cbn; constructor.
-    - exists []. split; [intros c []|]. apply ok_expand. apply Hr. left. reflexivity.
+    - exists (mkK [] false). split; [split; [intros c []|discriminate]|]. apply ok_expand. apply Hr. left. reflexivity.
     - apply IH. intros s' Hin. apply Hr. right. exact Hin. }
   split.
   - unfold conc_run, interleave.
@@ -371,48 +347,33 @@ Proof.
     destruct (fold_left (sched_step w) sched (st0, map (expand w) progs, [])) as [[st1 ts1] log1].
     destruct H as [I1 F1]. apply drain_ok; assumption.
   - apply map_ext_in. intros s Hin. unfold solo_run.
-    assert (Ho : ok [] (expand w s) (ideal_run_c w s)) by (apply ok_expand; apply Hr; exact Hin).
-    destruct (solo_ok _ _ _ Ho st0 I) as [H _]; [intros c []|exact H].
+    assert (Ho : ok (mkK [] false) (expand w s) (ref_run w E s)) by (apply ok_expand; apply Hr; exact Hin).
+    destruct (solo_ok _ _ _ Ho st0 I) as [H _]; [split; [intros c []|discriminate]|exact H].
 Qed.
 End Safe.
 
-(* ---- from the computable guard ---- *)
-Lemma index_eqb_eq a b : index_eqb a b = true -> a = b.
+(* For every state a context can be in — cold, warm, or holding a stale index —, any number
+   of threads and any schedule: if the requests of all threads together with the already
+   cached classes are ns-closed, every call returns the result of the reference semantics
+   over the index every lookup answers from, which is also what the call returns alone. *)
+Theorem context_safe w st0 progs sched :
+  conc_guard w st0 progs = true ->
+  conc_run w st0 progs sched = map (ref_run w (eff_index w st0)) progs
+  /\ map (solo_run w st0) progs = map (ref_run w (eff_index w st0)) progs.
 Proof.
-  unfold index_eqb. intros H. apply (list_eqb_spec (fun x y : str * list cid =>
-    str_eqb (fst x) (fst y) && lcid_eqb (snd x) (snd y))); [|exact H].
-  intros [q1 l1] [q2 l2]. cbn. rewrite andb_true_iff, str_eqb_eq, lcid_eqb_eq. split.
-  - intros [-> ->]. reflexivity.
-  - intros E. inversion E. auto.
-Qed.
-
-Lemma cache_get_in l c m : cache_get l c = Some m -> In (c, m) l.
-Proof.
-  induction l as [|[k v] l IH]; cbn; [discriminate|].
-  destruct (N.eqb_spec k c) as [->|_]; intros H; [inversion H; left; reflexivity|right; auto].
-Qed.
-
-(* When the index is current and the requests are ns-closed, every interleaving of any
-   number of threads gives every call the result of the stateless reference semantics,
-   which is also what the call returns when it runs alone. *)
-Theorem warm_context_safe w st0 progs sched :
-  warm_b w st0 = true -> conc_guard w (s_cache st0) progs = true ->
-  conc_run w st0 progs sched = map (ideal_run_c w) progs
-  /\ map (solo_run w st0) progs = map (ideal_run_c w) progs.
-Proof.
-  unfold warm_b, conc_guard. intros Hw Hg.
-  apply andb_true_iff in Hw as [Hs Hi]. apply N.eqb_eq in Hs. apply index_eqb_eq in Hi.
-  repeat (apply andb_true_iff in Hg as [Hg ?]).
-  set (reqs := s_cache st0 ++ flat_map (ideal_reqs w) progs) in *.
+  unfold conc_guard. intros Hg. repeat (apply andb_true_iff in Hg as [Hg ?]).
+  set (reqs := s_cache st0 ++ flat_map (ref_reqs w (eff_index w st0)) progs) in *.
   set (canon := first_build reqs).
   assert (Hcanon : forall c m, In (c, m) reqs -> canon c = Some m).
   { intros c m Hin. unfold canon. destruct (first_build_some _ _ _ Hin) as [m' Hm']. rewrite Hm'. f_equal.
     eapply consistent_spec; eauto using first_build_in. }
-  apply (conc_run_ideal w canon st0 Hs Hi); try assumption.
-  - constructor; try reflexivity.
+  apply (conc_run_ref w canon st0).
+  - constructor.
     + intros c m G. apply Hcanon. apply in_or_app. left. apply cache_get_in. exact G.
-    + intros c m G. apply cache_get_in in G. unfold cache_known in H1. rewrite forallb_forall in H1.
-      specialize (H1 _ G). cbn in H1. destruct (find_class w c) as [cd|]; [eauto|discriminate].
+    + intros c m G. apply cache_get_in in G. unfold cache_known in H0. rewrite forallb_forall in H0.
+      specialize (H0 _ G). cbn in H0. destruct (find_class w c) as [cd|]; [eauto|discriminate].
+    + intros Es. unfold E, eff_index. rewrite Es, N.eqb_refl. reflexivity.
+    + auto.
   - intros s Hin. apply reqs_ok_of. intros [c m] He. apply Hcanon. apply in_or_app. right.
     apply in_flat_map. exists s. split; assumption.
 Qed.
